@@ -37,6 +37,8 @@ type Conn struct {
 	Local     net.Addr
 	OnWrite   func(w Write) // called in the writer's goroutine after recording
 	CloseErr  error
+	CloseGate chan struct{} // when set, every Close waits for it (to hold a client's Close open)
+	OnClose   func()        // called on entry of every Close, before the gate
 }
 
 // New creates a connection whose inbox can hold cap injected datagrams.
@@ -106,6 +108,12 @@ func (c *Conn) Reads() int {
 func (c *Conn) Pending() int { return len(c.inbox) }
 
 func (c *Conn) Close() error {
+	if c.OnClose != nil {
+		c.OnClose()
+	}
+	if c.CloseGate != nil {
+		<-c.CloseGate
+	}
 	c.closeOnce.Do(func() { close(c.closed) })
 	return c.CloseErr
 }
